@@ -39,8 +39,7 @@ class Observer:
             val = P.contract(t.cores).reshape(-1).astype(complex)
             if i < len(self.vals):
                 old = self.vals[i]
-                same = old.shape == val.shape and np.all(np.isfinite(val)) and \
-                    (val.size == 0 or np.max(np.abs(old - val)) <= 1e-9 * max(1.0, float(np.max(np.abs(old)))))
+                same = old.shape == val.shape and _same_value(old, val)
                 if not same:
                     self.vids[i] = self.next_vid
                     self.next_vid += 1
@@ -56,6 +55,20 @@ class Observer:
                             ro=[k for k, c in enumerate(t.cores) if P.iso_defect(c, 'right') <= P.ISO_TOL],
                             vid=self.vids[i], isint=isint, v=v))
         return out
+
+
+def _same_value(old, val):
+    """equal up to rounding; non-finite entries (e.g. exact DMD modes of singular data) must match in place and kind"""
+    if val.size == 0:
+        return True
+    fo, fv = np.isfinite(old), np.isfinite(val)
+    if not np.array_equal(fo, fv):
+        return False
+    if not np.all(fv) and not np.array_equal(old[~fv], val[~fv], equal_nan=True):
+        return False
+    if not np.any(fv):
+        return True
+    return bool(np.max(np.abs(old[fv] - val[fv])) <= 1e-9 * max(1.0, float(np.max(np.abs(old[fv])))))
 
 
 def _int_or(x, default=-1):
